@@ -693,9 +693,23 @@ def run_det_property(prop, tier):
         for mm in r2["mismatches"]:
             if mm["property"] == prop:
                 violations.append(mm)
+    fixtrace = None
+    if prop == "C10":
+        # the repository's own vectors as a trace, validated with every Api invariant on
+        ft = os.path.join(BUILD, "fixtures_trace.ndjson")
+        pr = sh([ZKV, "fixtures-trace", ft], env={"ZKV_LAYOUTS": LAYOUTS})
+        info = json.loads(pr.stdout.splitlines()[-1])
+        okf, nf, matched, evf, errf = validate_trace(ft, "C10_fixtures_trace")
+        if errf:
+            raise ToolError(errf)
+        fixtrace = {"events": nf, "accepted": okf, "vectors_not_expressible": info["skipped"]}
+        if not okf:
+            violations.append({"property": prop, "what": "the trace built from the repository's fixtures is rejected by the specification at event %d: %s" % (matched + 1, json.dumps(evf)[:300]),
+                               "expected": "the fixture's verdict = the specification's = the library's", "observed": json.dumps(evf)[:200], "trace": ft, "event": evf})
     level = "translation_validation" if prop == "C10" else "model_checking"
     cov = {
-        "states": tot_states, "transitions": tot_trans, "traces_validated_against_impl": 0,
+        "states": tot_states, "transitions": tot_trans, "traces_validated_against_impl": 1 if (fixtrace and fixtrace["accepted"]) else 0,
+        "fixtures_as_trace": fixtrace,
         "cases_replayed_into_impl": ncases, "evaluations": evals, "distinct_nontrivial": ncases,
         "programs": ncases, "disagreements_checked": evals,
         "rule": "one case per point of the argument-class grid of slice det and per behaviour of the API slices; for each, the library's octets and decisions are compared with the concrete evaluation of the specification (reference evaluator driven by Layouts.tla), from one thread and from 16 threads in shuffled order",
